@@ -15,6 +15,9 @@ def gen_session_cfg(rng, idx):
         cfg["ns_auto"] = random.Random(cfg["rseed"]).choice([["full"], ["nxdomain", "full"], ["servfail", "headeronly", "full"], ["wrongtype", "full"],
                                                              ["notresponse", "cut", "full"], ["silent", "nxdomain", "full"], ["headeronly", "full"]])
         cfg["ns_ip"] = "192.0.2.55"
+    if idx % 6 == 5:
+        # iodined started with another tunnel MTU than its default (announced to the clients in the login reply)
+        cfg["srv_mtu"] = random.Random(cfg["rseed"] ^ 0x3717).choice([201, 576, 1280, 1500])   # (what tun_setmtu() accepts: 201..1500)
     cfg["sendfaults"] = idx % 4 == 2         # a quarter of the sessions see occasional sendto() failures on the server
     if idx % 7 == 3:
         # tunnel domains with labels of the maximum length (63) and short ones
@@ -137,6 +140,8 @@ def run_session(tag, cfg, seed, ops_filter=None, redeliver=True, setup_only=Fals
         extra += ["-n", "auto"]
     elif cfg.get("ns_ip"):
         extra += ["-n", cfg["ns_ip"]]
+    if cfg.get("srv_mtu"):
+        extra += ["-m", str(cfg["srv_mtu"])]
     s.fwd = None
     if cfg.get("bind"):
         extra += ["-b", str(BIND_PORT)]
